@@ -341,6 +341,15 @@ pub fn range(depth: usize) -> Value {
         preds.push((format!("k > {c1} and k < {c2} and v = 1"), Box::new(move |k, v, _| k > c1 && k < c2 && v == 1), Box::new(move |kind| format!("k > {} and k < {} and v = 1", kc(kind, c1), kc(kind, c2)))));
         preds.push((format!("k >= {c1} and v <> 0"), Box::new(move |k, v, _| k >= c1 && v != 0), Box::new(move |kind| format!("k >= {} and v <> 0", kc(kind, c1)))));
     }
+    // disjunctions and negations over the key (not a single range: must stay a filter, or be split correctly)
+    for (c1, c2) in [(3i64, 10i64), (6, 6), (10, 3)] {
+        preds.push((format!("k < {c1} or k > {c2}"), Box::new(move |k, _, _| k < c1 || k > c2), Box::new(move |kind| format!("k < {} or k > {}", kc(kind, c1), kc(kind, c2)))));
+        preds.push((format!("k = {c1} or k = {c2}"), Box::new(move |k, _, _| k == c1 || k == c2), Box::new(move |kind| format!("k = {} or k = {}", kc(kind, c1), kc(kind, c2)))));
+        preds.push((format!("not (k < {c1})"), Box::new(move |k, _, _| !(k < c1)), Box::new(move |kind| format!("not (k < {})", kc(kind, c1)))));
+        preds.push((format!("not (k >= {c1} and k <= {c2})"), Box::new(move |k, _, _| !(k >= c1 && k <= c2)), Box::new(move |kind| format!("not (k >= {} and k <= {})", kc(kind, c1), kc(kind, c2)))));
+        preds.push((format!("k >= {c1} and (v = 1 or k > {c2})"), Box::new(move |k, v, _| k >= c1 && (v == 1 || k > c2)), Box::new(move |kind| format!("k >= {} and (v = 1 or k > {})", kc(kind, c1), kc(kind, c2)))));
+        preds.push((format!("k <> {c1}"), Box::new(move |k, _, _| k != c1), Box::new(move |kind| format!("k <> {}", kc(kind, c1)))));
+    }
     // an equality together with a bound at / next to the same constant (point ranges, contradictions)
     for c in [6i64, 5, 0, kmax] {
         for d in [-1i64, 0, 1] {
@@ -442,7 +451,12 @@ pub fn agg(depth: usize) -> Value {
             sqls.push(format!("select {AGGS} from g where k is null"));
             sqls.push("select distinct k, v from g".to_string());
             sqls.push("select sum(v + k), count(v + k) from g".to_string());
-            tried += 7;
+            sqls.push("select distinct k from g".to_string());
+            sqls.push("select k, count(*) from g group by k having count(*) > 1".to_string());
+            sqls.push("select k, v, count(*) from g group by k, v".to_string());
+            sqls.push("select k + 1, count(v), count(*) from g group by k + 1".to_string());
+            sqls.push("select count(*), count(distinct k), min(k), max(k) from g where v is not null".to_string());
+            tried += 12;
             let outs = match run(e, &sqls, &[]) { Ok(o) => o, Err(err) => return found_raw(tried, e, &sqls, &[], sqls.len() - 1, "the session to run".into(), err) };
             for (i, o) in outs.iter().enumerate() { if let Err(err) = o { if let Some(v) = found(tried, e, &sqls, &[], i, "statement to succeed".into(), err.clone()) { return v; } } }
             let vs: Vec<V> = ds.iter().map(|r| r[1]).collect();
@@ -454,13 +468,57 @@ pub fn agg(depth: usize) -> Value {
             let mut distinct = strs(ds); distinct.sort(); distinct.dedup();
             let sums: Vec<V> = ds.iter().map(|r| match (r[0], r[1]) { (Some(a), Some(b)) => Some(a + b), _ => None }).collect();
             let sum_row = { let a = agg_row(&sums, sums.len()); vec![a[2].clone(), a[1].clone()] };
+            let mut ks: Vec<V> = ds.iter().map(|r| r[0]).collect(); ks.sort(); ks.dedup();
+            let distinct_k: Vec<Vec<String>> = ks.iter().map(|k| vec![sv(*k)]).collect();
+            let having: Vec<Vec<String>> = ks.iter().map(|k| (k, ds.iter().filter(|r| r[0] == *k).count())).filter(|(_, n)| *n > 1).map(|(k, n)| vec![sv(*k), n.to_string()]).collect();
+            let by_kv: Vec<Vec<String>> = { let mut d = strs(ds); d.sort(); d.dedup(); d.into_iter().map(|r| { let n = strs(ds).iter().filter(|x| **x == r).count(); vec![r[0].clone(), r[1].clone(), n.to_string()] }).collect() };
+            let by_k1: Vec<Vec<String>> = ks.iter().map(|k| { let g: Vec<&Row> = ds.iter().filter(|r| r[0] == *k).collect(); vec![sv(k.map(|x| x + 1)), g.iter().filter(|r| r[1].is_some()).count().to_string(), g.len().to_string()] }).collect();
+            let nn: Vec<V> = ds.iter().filter(|r| r[1].is_some()).map(|r| r[0]).collect();
+            let nn_row = { let a = agg_row(&nn, nn.len()); vec![a[0].clone(), a[5].clone(), a[3].clone(), a[4].clone()] };
             let wants: Vec<Vec<Vec<String>>> = vec![
-                vec![agg_row(&vs, vs.len())], vec![agg_row(&[], 0)], sorted(groups(ds)), sorted(groups(ds)), vec![agg_row(&nullk, nullk.len())], distinct, vec![sum_row]];
+                vec![agg_row(&vs, vs.len())], vec![agg_row(&[], 0)], sorted(groups(ds)), sorted(groups(ds)), vec![agg_row(&nullk, nullk.len())], distinct, vec![sum_row],
+                distinct_k, having, by_kv, by_k1, vec![nn_row]];
             for (j, want) in wants.iter().enumerate() {
                 let got = outs[q0 + j].clone().unwrap();
                 if sorted(got.clone()) != sorted(want.clone()) {
                     if let Some(v) = found(tried, e, &sqls, &[], q0 + j, format!("{want:?}"), format!("{got:?}")) { return v; }
                 }
+            }
+        }
+    }
+    // MIN / MAX / COUNT DISTINCT / DISTINCT over strings and booleans, global and grouped, NULLs skipped
+    for e in [Engine::Mem, Engine::Disk { block: 64, rowset: 1 }] {
+        let data: Vec<(i64, Option<&str>, Option<bool>)> = vec![(0, Some("pear"), Some(true)), (0, None, Some(false)), (0, Some("apple"), None), (1, Some("Zoe"), Some(true)), (1, Some("apple"), Some(true)), (2, None, None), (0, Some(""), Some(false)), (1, Some("pear"), None)];
+        let lit = |r: &(i64, Option<&str>, Option<bool>)| format!("({}, {}, {})", r.0, r.1.map(|s| format!("'{s}'")).unwrap_or("NULL".into()), r.2.map(|b| b.to_string()).unwrap_or("NULL".into()));
+        let mut sqls = vec!["create table sb(k int, s varchar, b boolean)".to_string()];
+        for part in data.chunks(3) { sqls.push(format!("insert into sb values {}", part.iter().map(lit).collect::<Vec<_>>().join(","))); }
+        let q0 = sqls.len();
+        let row_for = |rows: &Vec<&(i64, Option<&str>, Option<bool>)>| -> Vec<String> {
+            let ss: Vec<&str> = rows.iter().filter_map(|r| r.1).collect();
+            let bs: Vec<bool> = rows.iter().filter_map(|r| r.2).collect();
+            // the result printer shows an empty string as (empty)
+            let o = |x: Option<String>| x.map(|s| if s.is_empty() { "(empty)".to_string() } else { s }).unwrap_or("NULL".into());
+            let mut ds = ss.clone(); ds.sort(); ds.dedup();
+            vec![o(ss.iter().min().map(|s| s.to_string())), o(ss.iter().max().map(|s| s.to_string())), ds.len().to_string(), ss.len().to_string(), o(bs.iter().min().map(|b| b.to_string())), o(bs.iter().max().map(|b| b.to_string()))]
+        };
+        const SB: &str = "min(s), max(s), count(distinct s), count(s), min(b), max(b)";
+        sqls.push(format!("select {SB} from sb"));
+        sqls.push(format!("select k, {SB} from sb group by k"));
+        sqls.push(format!("select {SB} from sb where k > 5"));
+        sqls.push("select distinct s from sb".to_string());
+        sqls.push("select distinct b from sb".to_string());
+        tried += 5;
+        let outs = match run(e, &sqls, &[]) { Ok(o) => o, Err(err) => return found_raw(tried, e, &sqls, &[], sqls.len() - 1, "the session to run".into(), err) };
+        let all: Vec<&(i64, Option<&str>, Option<bool>)> = data.iter().collect();
+        let grouped: Vec<Vec<String>> = [0i64, 1, 2].iter().map(|k| { let g: Vec<&(i64, Option<&str>, Option<bool>)> = data.iter().filter(|r| r.0 == *k).collect(); let mut row = vec![k.to_string()]; row.extend(row_for(&g)); row }).collect();
+        let mut ds: Vec<Vec<String>> = data.iter().map(|r| vec![r.1.map(|s| if s.is_empty() { "(empty)".to_string() } else { s.to_string() }).unwrap_or("NULL".into())]).collect(); ds.sort(); ds.dedup();
+        let mut db: Vec<Vec<String>> = data.iter().map(|r| vec![r.2.map(|b| b.to_string()).unwrap_or("NULL".into())]).collect(); db.sort(); db.dedup();
+        let wants: Vec<Vec<Vec<String>>> = vec![vec![row_for(&all)], sorted(grouped), vec![row_for(&vec![])], ds, db];
+        for (j, want) in wants.iter().enumerate() {
+            match &outs[q0 + j] {
+                Ok(got) if sorted(got.clone()) == sorted(want.clone()) => {}
+                Ok(got) => { if let Some(v) = found(tried, e, &sqls, &[], q0 + j, format!("{want:?}"), format!("{:?}", sorted(got.clone()))) { return v; } }
+                Err(err) => { if let Some(v) = found(tried, e, &sqls, &[], q0 + j, format!("{want:?}"), format!("error: {err}")) { return v; } }
             }
         }
     }
